@@ -566,3 +566,256 @@ def physical_oracle(t1, dump1=None):
         if not (t1["mins"][k] >= 0.0):
             bad.append(("negative-" + names[k], "minimum %s after the step is %r" % (names[k], t1["mins"][k])))
     return bad
+
+
+# ------------------------------------------------------------------ one real run, all checks
+PERS = [(True, True, True), (True, True, True), (False, False, False), (True, False, True), (False, True, True), (True, True, False), (False, False, True)]
+KINDS = ["smooth", "jump", "blast", "nearvac", "random", "supersonic", "smooth", "random"]
+
+
+def pick_config(ctx, max_cells):
+    rng = ctx.rng
+    while True:
+        layout = tuple(rng.choice([1, 1, 2, 2, 3]) for _ in range(3))
+        cells = tuple(rng.choice([2, 3, 4, 5, 6]) for _ in range(3))
+        n = 1
+        for a in range(3):
+            n *= layout[a] * cells[a]
+        if n <= max_cells:
+            break
+    per = rng.choice(PERS)
+    g = rng.choice(GAMMAS[:4])
+    kind = rng.choice(KINDS)
+    threads = rng.choice([1, 2, 4, 8])
+    box = rng.choice([(1., 1., 1.), (1., 1., 1.), (2., 1., 0.5), (1., 3., 1.)])
+    return dict(layout=layout, cells=cells, per=per, g=g, kind=kind, threads=threads, box=box)
+
+
+def python_grid_faces(ncell, per):
+    """the faces of the global grid, straight from the definition (independent of the Lean model)"""
+    exp = collections.Counter()
+    for X in itertools.product(range(ncell[0]), range(ncell[1]), range(ncell[2])):
+        for ax in range(3):
+            Y = list(X)
+            Y[ax] += 1
+            if Y[ax] == ncell[ax]:
+                if per[ax]:
+                    Y[ax] = 0
+                    exp[("p", X, tuple(Y), ax)] += 1
+                else:
+                    exp[("b", X, ax, 1)] += 1
+            else:
+                exp[("p", X, tuple(Y), ax)] += 1
+            if X[ax] == 0 and not per[ax]:
+                exp[("b", X, ax, -1)] += 1
+    return exp
+
+
+def wall_mach(dump0, coords, ncell, per, g):
+    """largest (velocity towards an adjacent wall) / (sound speed) over the wall cells, before the step"""
+    worst = 0.0
+    for key, rec in dump0.items():
+        X = coords[key]
+        prim = [vlib.bits2f(x) for x in rec[8:13]]
+        if not (prim[0] > 0 and prim[4] > 0):
+            continue
+        cs = math.sqrt(g * prim[4] / prim[0])
+        for ax in range(3):
+            if per[ax]:
+                continue
+            if X[ax] == ncell[ax] - 1:
+                worst = max(worst, prim[1 + ax] / cs)
+            if X[ax] == 0:
+                worst = max(worst, -prim[1 + ax] / cs)
+    return worst
+
+
+def check_run(ctx, cfg, res, model, stream):
+    """all checks on one finished run.  Returns the decoded trace (or None)."""
+    layout, cells, per, g = cfg["layout"], cfg["cells"], cfg["per"], cfg["g"]
+    ncell = [layout[a] * cells[a] for a in range(3)]
+    rep = dict(cfg, param=res.get("param", ""), states=[[list(k), list(v[:2]) + [list(v[2])]] for k, v in sorted(cfg["states"].items())],
+               cmd="CMacIonize --params run.param --task-based-rhd --number-of-steps %d --threads %d (CMAC_VERIF_FACELOG=1 CMAC_VERIF_STATEDUMP=1)" % (cfg.get("steps", 1), cfg["threads"]))
+    rep.pop("kind_states", None)
+    tag = "layout %s cells/subgrid %s periodic %s gamma %.4g %s threads %d" % (layout, cells, per, g, cfg["kind"], cfg["threads"])
+    if res["timed_out"]:
+        ctx.violation("run:timeout", "hydro run did not finish: " + tag, rep)
+        return None
+    if res["rc"] != 0:
+        ctx.violation("run:failed", "hydro run exited with status %d (%s): %s" % (res["rc"], tag, res["log"][-300:]), rep)
+        return None
+    tr = Trace(res["trace"])
+    if not tr.steps or 0 not in tr.steps[0]["H"]:
+        ctx.broken_obligation("no hydro totals in the trace (hook H3 for C04 missing in this tree?) " + tag, res["log"][-400:])
+        return None
+    st = ctx.cov["correspondence_streams"].setdefault(stream, {"lines": 0, "mismatches": 0, "oracle_failures": 0})
+    # cell identity from the midpoints
+    coords = cell_coords_from_midpoints(tr.steps[0]["dump"][0], ncell, cfg["box"]) if tr.steps[0]["dump"][0] else None
+    if coords is not None:
+        for ig, gl in model["cells"].items():
+            for loc, gi in enumerate(gl):
+                X = coords.get((ig, loc))
+                st["lines"] += 1
+                if X is None or gi != (X[0] * ncell[1] + X[1]) * ncell[2] + X[2]:
+                    st["mismatches"] += 1
+                    ctx.broken_obligation("cell (subgrid %d, index %d) lies at %r in the implementation but is global cell %d in the Lean model (%s)" % (ig, loc, X, gi, tag),
+                                          json.dumps(rep, default=str)[:2000])
+                    return tr
+    nfaces = sum(1 for x in model["all"] if True)
+    pyfaces = python_grid_faces(ncell, per)
+    for si, step in enumerate(tr.steps):
+        t0, t1 = totals_of(step["H"][0]), totals_of(step["H"][1])
+        ctx.branch("steps")
+        # ---- face log against the model, and the property itself on the log
+        if step["calls"]:
+            for kind in ("f", "g"):
+                obs, bad = observed_calls(tr, step, kind)
+                for x in bad[:2]:
+                    st["oracle_failures"] += 1
+                    ctx.violation("faces:wrong-memory", "%s (step %d, %s)" % (x, si, tag), rep)
+                exp = expected_calls(model, kind)
+                st["lines"] += sum(exp.values())
+                if coords is not None:
+                    glob = collections.Counter()
+                    for c, n in obs.items():
+                        if c[0] == "p":
+                            glob[("p", coords[(c[1], c[2])], coords[(c[3], c[4])], c[5])] += n
+                        else:
+                            glob[("b", coords[(c[1], c[2])], c[3], c[4])] += n
+                    if glob != pyfaces:
+                        st["oracle_failures"] += 1
+                        what = "flux" if kind == "f" else "gradient"
+                        miss, extra = list((pyfaces - glob).items())[:3], list((glob - pyfaces).items())[:3]
+                        ctx.violation("faces:%s-not-exactly-once" % what,
+                                      "the %s sweeps of one step do not visit every face of the global grid exactly once (%s): missing or too few %r, not a face or too many %r"
+                                      % (what, tag, miss, extra), rep)
+                if obs != exp:
+                    st["mismatches"] += 1
+                    ctx.broken_obligation("face log (%s calls) differs from the Lean sweep lists (%s): %s" % (kind, tag, describe_diff(exp, obs)),
+                                          json.dumps(rep, default=str)[:2000])
+            # with one thread the calls between the start and the end of a task belong to it: order inside a task
+        # ---- the property on the totals
+        walls_ok = True
+        wm = 0.0
+        if not all(per):
+            wm = wall_mach(step["dump"][0], coords, ncell, per, g) if (coords is not None and step["dump"][0]) else 9.9
+            walls_ok = wm < 1.0
+        ctx.branch("periodic-box" if all(per) else ("walls-subsonic" if walls_ok else "walls-supersonic"))
+        clamp = t1["mins"][0] <= 0.0 or t1["mins"][1] <= 0.0
+        ctx.branch("clamp-fired" if clamp else "no-clamp")
+        for key, text in conservation_oracle(t0, t1, nfaces, per, walls_ok, g):
+            st["oracle_failures"] += 1
+            ctx.violation("totals:" + key, "%s (step %d, %s, wall Mach %.2f)" % (text, si, tag, wm), rep)
+        for key, text in physical_oracle(t1):
+            st["oracle_failures"] += 1
+            ctx.violation("state:" + key, "%s (step %d, %s)" % (text, si, tag), rep)
+        # ---- the hook's totals against exact sums of the dump (validates the hook)
+        for ph in (0, 1):
+            d = step["dump"][ph]
+            if d:
+                tt = totals_of(step["H"][ph])
+                for j in range(5):
+                    vals = [vlib.bits2f(rec[3 + j]) for rec in d.values()]
+                    if all(v == v and abs(v) != float("inf") for v in vals) and tt["tot"][j] is not None:
+                        ex = sum(fractions.Fraction(v) for v in vals)
+                        sc = sum(abs(fractions.Fraction(v)) for v in vals)
+                        if abs(ex - tt["tot"][j]) > fractions.Fraction(1, 10 ** 15) * sc:
+                            ctx.broken_obligation("hook totals disagree with the exact sum of the state dump (component %d, %s)" % (j, tag), "")
+    return tr
+
+
+def do_runs(ctx, nruns, max_cells, steps_choices=(1, 2, 3)):
+    binary = vlib.full_binary()
+    drv = vlib.driver("drv_c04")
+    for _ in range(nruns):
+        cfg = pick_config(ctx, max_cells)
+        ncell = [cfg["layout"][a] * cfg["cells"][a] for a in range(3)]
+        cfg["states"] = initial_state(ctx.rng, ncell, cfg["kind"], cfg["g"], cfg["per"])
+        cfg["steps"] = ctx.rng.choice(steps_choices)
+        res = run_hydro(binary, cfg["layout"], cfg["per"], cfg["cells"], cfg["g"], cfg["states"], cfg["threads"], steps=cfg["steps"], box=cfg["box"])
+        model = model_lists(drv, cfg["layout"], cfg["per"], cfg["cells"])
+        ctx.count()
+        ctx.distinct((cfg["layout"], cfg["cells"], cfg["per"], cfg["kind"], cfg["threads"]), nontrivial=(cfg["layout"] != (1, 1, 1)))
+        ctx.branch("init-" + cfg["kind"])
+        ctx.branch("threads-%d" % cfg["threads"])
+        tr = check_run(ctx, cfg, res, model, "hydro-runs")
+        if tr is not None and len(ctx.cov["samples"]) < 4:
+            t0, t1 = totals_of(tr.steps[0]["H"][0]), totals_of(tr.steps[0]["H"][1])
+            ctx.sample({"layout": cfg["layout"], "cells_per_subgrid": cfg["cells"], "periodic": cfg["per"], "kind": cfg["kind"], "threads": cfg["threads"],
+                        "faces": len(model["all"]), "dt": t0["dt"],
+                        "relative_mass_change": float((t1["tot"][0] - t0["tot"][0]) / t0["tot"][0]) if t0["tot"][0] else None,
+                        "relative_energy_change": float((t1["tot"][4] - t0["tot"][4]) / t0["tot"][4]) if t0["tot"][4] else None})
+
+
+def run(ctx):
+    ctx.level = "proof"
+    ctx.assumptions += [
+        "theorems are about exact real arithmetic; floating-point round-off is bounded empirically by the tolerances below",
+        "totals_conserved: periodic box, no gravity / energy source term, no positivity clamp firing (the steps in which a clamp fires are excluded from the conservation oracle, as in the property statement)",
+        "reflective_no_mass_energy: reconstructed wall-normal velocity < 1.5 c_s (checked on runs whose cell-centred wall Mach number before the step is < 1)",
+        "finiteness (NaN/Inf) is a floating-point notion: searched on the real runs and cell-level cases, not proved",
+        "the CFL time step is the one the code chooses; the theorems hold for every dt",
+        "the Riemann solver is uninterpreted in the conservation theorems (any flux function); only reflective walls use C05's HLLC model",
+        "other boundary types (inflow, outflow, Bondi) are not modelled",
+    ]
+    ok = ctx.obligations("CMacVerif.Props.C04", ["drv_c04"])
+    h = vlib.build_harness("c04")
+    drv = vlib.driver("drv_c04")
+    ctx.cov["tolerance"] = {"cell_level_relative": TOL_CELL, "totals_relative_per_face": TOL_TOTAL}
+    ctx.cov["rule"] = ("cell level: generated state pairs (smooth / jump / identical / vacuum / near-vacuum / ties, limiter-firing cells, 28 decades of density) through "
+                       "Hydro::limit, do_flux_calculation, do_ghost_flux_calculation, do_(ghost_)gradient_calculation, update_conserved_variables, set_primitive_variables vs the Float model; "
+                       "runs: real pure-hydro steps of the hooked binary on random layouts (1..3 subgrids/axis, 2..6 cells/subgrid, periodic / reflective / mixed, 1/2/4/8 threads, "
+                       "smooth / jump / blast / near-vacuum / random / supersonic initial states): per-call log vs the Lean sweep lists, faces-exactly-once, totals, non-negativity, finiteness; "
+                       "distinct = (layout, cells, periodicity, kind, threads); non-trivial = more than one subgrid")
+    if not ok:
+        return
+    # ---- corpus + cell level
+    ops = vlib.corpus_ops("C04") + cell_ops(ctx, ctx.budget(6000, 120000))
+    n, impl, model, orc = ctx.correspond("cells", h, drv, ops, cmp=cmp_cell, oracle_key=oracle_key)
+    exact = 0
+    for a, m in zip(impl, model):
+        ctx.count()
+        if bit_exact(a, m):
+            exact += 1
+        if "#" in m:
+            ctx.branch(m.split("#")[-1].strip())
+    ctx.cov["bit_exact_rate"] = round(exact / max(1, len(ops)), 6)
+    for i, op in enumerate(ops[:3]):
+        ctx.sample({"op": op[:120] + "...", "impl": impl[i][:100] if i < len(impl) else None})
+    # ---- real runs
+    do_runs(ctx, ctx.budget(40, 400), ctx.budget(1500, 4000))
+    need = ["fl1", "fl2", "fl4", "fl8", "fl16", "fl32", "lim0", "uc1", "uc2", "up0", "up1", "periodic-box", "walls-subsonic"]
+    missing = [t for t in need if not any(k == t or (t.startswith("fl") and k.startswith("fl") and k[2:].isdigit() and int(k[2:]) & int(t[2:])) for k in ctx.cov["branch_histogram"])]
+    if missing and ctx.thorough:
+        ctx.notes.append("coverage gate: branches never taken: %s" % missing)
+
+
+def replay(ctx, path):
+    obj = json.load(open(path))
+    if "ops" in obj:
+        return vlib.generic_replay(ctx, path, "c04", "drv_c04", cmp=cmp_cell)
+    print(json.dumps({k: v for k, v in obj.items() if k not in ("param", "states")}, indent=1)[:3000])
+    if "states" not in obj:
+        print("replay file names a broken obligation, not an input")
+        return 1
+    cfg = dict(obj)
+    cfg["layout"], cfg["cells"], cfg["per"], cfg["box"] = tuple(obj["layout"]), tuple(obj["cells"]), tuple(obj["per"]), tuple(obj["box"])
+    cfg["states"] = {tuple(k): (v[0], v[1], v[2]) for k, v in obj["states"]}
+    binary = vlib.full_binary()
+    vlib.lake_build(["drv_c04"])
+    res = run_hydro(binary, cfg["layout"], cfg["per"], cfg["cells"], cfg["g"], cfg["states"], cfg["threads"], steps=cfg.get("steps", 1), box=cfg["box"])
+    model = model_lists(vlib.driver("drv_c04"), cfg["layout"], cfg["per"], cfg["cells"])
+    before = len(ctx.violations)
+    check_run(ctx, cfg, res, model, "replay")
+    for v in ctx.violations[before:]:
+        print("  ", v[0], v[1][:300])
+    again = len(ctx.violations) > before or getattr(ctx, "pending_broken", [])
+    print("REPRODUCED" if again else "not reproduced")
+    return 1 if again else 0
+
+
+MANIFEST = dict(
+    category="proof",
+    text="Lean theorems, for EVERY subgrid layout nx x ny x nz, every number of cells per subgrid (>= 1 per axis), every periodicity: the internal sweeps and the pair sweeps of all subgrids together visit every face of the global cell grid exactly once (permutation of the plain list of faces), the boundary sweeps every box-boundary face exactly once; one face subtracts F from the left and adds the same F to the right cell, F = one common factor in [0,1] times area times the Riemann flux (the limiter's use of the left momentum in the right-cell test does not matter); hence in a periodic box the sums of mass, momentum and energy over all cells do not change in a step as long as no positivity clamp fires, for ANY flux function, any dt, any state; at a reflective wall the mirror ghost state gives zero mass and energy flux when the reconstructed normal velocity is below 1.5 c_s (C05's HLLC model); after the clamps mass, energy, density, pressure are >= 0. Tied to the code by bit-level agreement of the Float model with Hydro::limit / do_flux_calculation / do_ghost_flux_calculation / gradient calls / update_conserved_variables / set_primitive_variables, by the per-call log (addresses of the states actually passed) of real multi-thread steps against the Lean sweep lists, and by the conservation / non-negativity / finiteness oracles on the real runs.",
+    note="Trusted: Lean kernel + 3 axioms; hand model of the sweeps and of Hydro.hpp (bit-exact on all generated cases); exact real arithmetic in the theorems (round-off bounded empirically: 1e-12 x number of faces on the totals); finiteness only searched; CFL step taken from the code; only periodic and reflective boundaries; gamma > 1 branch of set_primitive_variables.",
+    technique="Lean 4 proof (permutation of face lists for all layouts; algebraic conservation over an uninterpreted flux; HLLC mirror lemma of C05 for walls) + Float-model differential testing of the real cell-level functions + trace/oracle checks on runs of the real hooked binary")
